@@ -169,19 +169,47 @@ def explore(fn, max_paths=512, timeout_ms=5000):
 _STATE = {}
 
 
+def _marker(key):
+    import hashlib
+    import os
+
+    return "/tmp/symx_viol_%d_%s" % (os.getppid(), hashlib.sha1(key.encode()).hexdigest()[:12])
+
+
+def clear_markers():
+    """called by main() before and after the run (the case workers are its children)"""
+    import glob
+    import os
+
+    for f in glob.glob("/tmp/symx_viol_%d_*" % os.getpid()):
+        try:
+            os.unlink(f)
+        except OSError:
+            pass
+
+
 def decide(log, v, key, **kw):
-    """log.decide, except that once `key` has a replayed violation in this case (or two failed obligations whose
-    candidates did not reproduce) further failing obligations of the same key are recorded without new replay runs."""
+    """log.decide with bounded replay effort.  One replayed counterexample per key and run is enough (the framework
+    reports violations per key): once `key` has a replayed violation in this case or in a sibling case of the same run
+    (marker file), or two failed obligations of this case found no reproducing candidate, further failing obligations
+    of the same key are recorded as open obligations without new replay runs."""
+    import os
+
     if v.holds:
         return log.decide(v, key=key, **kw)
     st = _STATE.setdefault(id(log), {"violated": set(), "failed": {}})
-    if key in st["violated"] or st["failed"].get(key, 0) >= 2:
-        log.obligations.append({"case": log.case, "what": v.what, "status": v.status, "time_s": round(v.time, 4), "residual_terms": v.nterms})
+    if key in st["violated"] or st["failed"].get(key, 0) >= 2 or os.path.exists(_marker(key)):
+        log.obligations.append({"case": log.case, "what": v.what, "status": v.status, "time_s": round(v.time, 4), "residual_terms": v.nterms,
+                                "note": "same key already replayed as a violation in this run" if key in st["violated"] or os.path.exists(_marker(key)) else "no reproducing candidate"})
         return False
     nv = len(log.violations)
     ok = log.decide(v, key=key, **kw)
     if len(log.violations) > nv:
         st["violated"].add(key)
+        try:
+            open(_marker(key), "w").close()
+        except OSError:
+            pass
     else:
         st["failed"][key] = st["failed"].get(key, 0) + 1
     return ok
@@ -403,6 +431,7 @@ def case_reject_degree(log, mode, n):
         except _Reached:
             rejected = False
         bad = z3.Or(deg.e < 1, deg.e >= n)
+        log.twin("degree range")  # (before the concrete constructions below add their non-zero denominators to the context)
         if rejected:
             v = prove_formula(bad, "%d nodes: ValueError from the sanity checks => degree < 1 or >= len(grid)" % n)
             decide(log, v, key="InterpolatorDispatcher.__init__:degree-check", replay=(MOD, "replay_reject_degree", {"mode": mode, "n": n}),
@@ -426,7 +455,6 @@ def case_reject_degree(log, mode, n):
                                   % (n, k, "succeeds" if ok_k else "raises ValueError", "success" if 1 <= k <= n - 1 else "ValueError"))
                 decide(log, v, key="InterpolatorDispatcher.__init__:degree-check", replay=(MOD, "replay_reject_degree", {"mode": mode, "n": n}),
                        candidates=[{"deg": str(k)}])
-        log.twin("degree range")
 
     _r, pm = explore(run)
     log.path_stats(pm)
@@ -818,7 +846,11 @@ def main():
             chk.case("reject.duplicates.%s.n%d" % (tag, n), case_reject_duplicates, mode=mode, n=n)
     chk.case("basis.rawinput.n4.deg2", case_basis, mode=True, n=4, deg=2, mode_N=True, raw_input=True)
     import eko.interpolation  # noqa: F401  imported once here (fresh per run); the forked case workers rebind its globals
-    return chk.run()
+    clear_markers()
+    try:
+        return chk.run()
+    finally:
+        clear_markers()
 
 
 if __name__ == "__main__":
